@@ -675,6 +675,12 @@ func (c *Conn) readRecordOrCCS(expectChangeCipherSpec bool) error {
 			c.rawInputBuf = c.rawInputBuf[recordHeaderLen+n:]
 			continue
 		}
+		// 握手期间收到尚未切换到的 epoch 的记录（乱序或丢包：对端的 Finished / 应用数据先于其 CCS 到达）：
+		// 此时没有对应密钥，无法解密；静默丢弃，等待对端重传
+		if epoch > c.readEpoch && !handshakeComplete {
+			c.rawInputBuf = c.rawInputBuf[recordHeaderLen+n:]
+			continue
+		}
 
 		// 解密 + MAC 验证
 		record := c.rawInputBuf[:recordHeaderLen+n]
